@@ -75,6 +75,9 @@ pub fn ref_cases(tier: Tier) -> Vec<CaseSpec> {
     for c in gen3::f2_carry() {
         v.push(CaseSpec::Full(Box::new(c)));
     }
+    for c in gen3::f1_sext() {
+        v.push(CaseSpec::Full(Box::new(c)));
+    }
     for (c, _names, _mask) in gen2::f3(tier, false) {
         v.push(CaseSpec::Full(Box::new(c)));
     }
@@ -128,6 +131,9 @@ pub fn exec_cases(tier: Tier) -> Vec<CaseSpec> {
         v.push(CaseSpec::Full(Box::new(c)));
     }
     for c in gen3::f2_carry() {
+        v.push(CaseSpec::Full(Box::new(c)));
+    }
+    for c in gen3::f1_sext() {
         v.push(CaseSpec::Full(Box::new(c)));
     }
     for (c, _names, _mask) in gen2::f3(tier, false) {
